@@ -213,6 +213,41 @@ def check_case(rec, spec, p_idx, kind, tol_idx, out_mode, out_idx,
                              f'with an unknown function in {U}, the '
                              f'perturbed cell {P} is no longer reported: '
                              f'{str(report)[:300]}')
+            # (4) the perturbed cell is reached only THROUGH a cell that can
+            #     not be evaluated: it is still reachable from that output
+            if unknown_idx is not None and must_report and not failure:
+                cands = [a for a in forms
+                         if a in desc and a != P and models.feature_of(
+                             spec, a) != 'array-member' and isinstance(
+                             spec['sheets'][a.rsplit('!', 1)[0]].get(
+                                 a.rsplit('!', 1)[1]), str)]
+                if cands:
+                    U = cands[unknown_idx % len(cands)]
+                    usheet, ucoord = U.rsplit('!', 1)
+                    spec_u = dict(spec)
+                    spec_u['sheets'] = {n: dict(c) for n, c in
+                                        spec['sheets'].items()}
+                    spec_u['sheets'][usheet][ucoord] = \
+                        '=NOSUCHFUNCTION(' + spec['sheets'][usheet][ucoord][1:] + ')'
+                    path = os.path.join(tmp, 'through-unknown.xlsx')
+                    write_xlsx_with_results(
+                        wbspec.build_spec(spec_u),
+                        models.results_by_sheet(stored), path)
+                    report = ExcelCompiler(filename=path).validate_calcs(
+                        output_addrs=[U], tolerance=tol)
+                    rec.label('through-unevaluable-output')
+                    listed = str(report.get('not-implemented', {})) + \
+                        str(report.get('exceptions', {}))
+                    if U not in listed:
+                        fail('unevaluable-cell-not-reported',
+                             f'output {U} holds an unknown function but the '
+                             f'report has {sorted(report)}')
+                    elif P not in report.get('mismatch', {}):
+                        fail('mismatch-behind-unevaluable-cell-not-reported',
+                             f'{P} ({values[P]!r} -> {new!r}) is a precedent '
+                             f'of the output {U}, which holds an unknown '
+                             f'function; validate_calcs([{U}]) reports '
+                             f'{str(report)[:200]}')
     except Exception as exc:
         fail(f'raises:{exc_key(exc)}', repr(exc)[:300])
     rec.case(key=(repr(spec['sheets']), repr(spec['arrays']), p_idx, kind,
